@@ -13,13 +13,13 @@ from .tlc import MachineryError
 # property -> (level, [engine module names])
 REGISTRY = {
     "C01": ("model_checking", ["bloomfam", "expanding", "scale", "proofs", "repotests"]),
-    "C02": ("model_checking", ["countmin", "scale", "repotests"]),
+    "C02": ("model_checking", ["countmin", "scale", "repotests", "proofs"]),
     "C03": ("model_checking", ["cuckoo", "scale", "repotests"]),
     "C04": ("model_checking", ["qf", "scale", "repotests"]),
     "C05": ("model_checking", ["bloomfam", "countmin", "cuckoo", "expanding", "scale"]),
     "C06": ("model_checking", ["layout"]),
     "C07": ("model_checking", ["sizing", "scale"]),
-    "C08": ("model_checking", ["bloomfam", "cuckoo", "scale", "repotests"]),
+    "C08": ("model_checking", ["bloomfam", "cuckoo", "scale", "repotests", "proofs"]),
     "C09": ("model_checking", ["expanding", "scale", "repotests"]),
     "C10": ("model_checking", ["expanding", "scale", "repotests"]),
     "C11": ("fault_enumeration", ["ondisk", "scale"]),
